@@ -617,6 +617,19 @@ func storesTo(addr ssa.Value) []ssa.Value {
 			out = append(out, st.Val)
 			return
 		}
+		// element / field of a local array or struct
+		switch a := st.Addr.(type) {
+		case *ssa.IndexAddr:
+			if a.X == addr {
+				out = append(out, st.Val)
+				return
+			}
+		case *ssa.FieldAddr:
+			if a.X == addr {
+				out = append(out, st.Val)
+				return
+			}
+		}
 		if isField {
 			if s2, f2, _, ok2 := fieldOf(st.Addr); ok2 && s2 == sN && f2 == fN {
 				out = append(out, st.Val)
